@@ -213,12 +213,34 @@ func init() {
 		atomicOnly(w, r, w.Field("storage/page", "Page", "pinCount"))
 	})
 
-	reg("C17-R2", "index wrappers: every use of the container happens under the wrapper lock (updateMtx / rwMtx); the *Inner helpers take it shared unless called with isNoLock=true, which only UpdateEntry does while holding it exclusively", func(w *World, r *Report) {
+	reg("C17-R2", "index wrappers (all four kinds): every use of the container happens under the wrapper lock (updateMtx / rwMtx); the *Inner helpers take it shared unless called with isNoLock=true, which only UpdateEntry does while holding it exclusively; UpdateEntry makes both container operations of the move inside one exclusive hold", func(w *World, r *Report) {
 		type wrap struct{ typ, lock string }
-		for _, wr := range []wrap{{"SkipListIndex", "updateMtx"}, {"UniqSkipListIndex", "updateMtx"}, {"BTreeIndex", "rwMtx"}} {
+		for _, wr := range []wrap{{"SkipListIndex", "updateMtx"}, {"UniqSkipListIndex", "updateMtx"}, {"BTreeIndex", "rwMtx"}, {"LinearProbeHashTableIndex", "updateMtx"}} {
 			cont := w.Field("storage/index", wr.typ, "container")
 			exempt := map[string]string{"GetHeaderPageID": "reads the header page id fixed at construction", "WriteOutContainerStateToBPM": "shutdown only, after the request manager stopped"}
 			nAcc := 0
+			usesContCache := map[*ssa.Function]bool{}
+			usesCont := func(f *ssa.Function) bool {
+				if v, ok := usesContCache[f]; ok {
+					return v
+				}
+				res := false
+				if f.Signature.Recv() != nil && strings.Contains(f.Signature.Recv().Type().String(), "index."+wr.typ) {
+					for _, g := range w.FuncAndHelpers(f) {
+						for _, b := range g.Blocks {
+							for _, x := range b.Instrs {
+								if fa, ok := x.(*ssa.FieldAddr); ok {
+									if sst, ok := derefStruct(fa.X.Type()); ok && sst.Field(fa.Field) == cont {
+										res = true
+									}
+								}
+							}
+						}
+					}
+				}
+				usesContCache[f] = res
+				return res
+			}
 			for _, fn := range w.methodsOf("storage/index", wr.typ) {
 				if _, ok := exempt[fn.Name()]; ok {
 					continue
@@ -249,6 +271,7 @@ func init() {
 				}
 				for _, v := range variants {
 					var bad []string
+					var halves []ssa.Instruction
 					lw := &LockWalk{W: w, Fn: fn, Init: v.init, Cut: v.cut,
 						OnInstr: func(in ssa.Instruction, st *LState) {
 							if fa, ok := in.(*ssa.FieldAddr); ok {
@@ -256,6 +279,16 @@ func init() {
 									nAcc++
 									if !st.Holds(mu, false) {
 										bad = append(bad, "container used at "+w.InstrPos(in))
+									}
+								}
+							}
+							// UpdateEntry moves an entry in two container operations: both are made with the wrapper lock held
+							// exclusively (a reader between them finds no entry for the key and answers without reaching the row)
+							if c, ok := in.(*ssa.Call); ok && fn.Name() == "UpdateEntry" {
+								if f := c.Call.StaticCallee(); f != nil && usesCont(f) {
+									halves = append(halves, in)
+									if !st.Holds(mu, true) {
+										bad = append(bad, f.Name()+" at "+w.InstrPos(in)+" without the exclusive wrapper lock: the move of the entry is not one step for readers")
 									}
 								}
 							}
@@ -286,6 +319,44 @@ func init() {
 							bad = append(bad, kind+" "+name+" at "+w.InstrPos(in))
 						}}
 					lw.Run()
+					if len(halves) > 0 {
+						// one critical section: no explicit release of the wrapper lock between two halves
+						lockFld := w.Field("storage/index", wr.typ, wr.lock)
+						isRelease := func(x ssa.Instruction) bool {
+							c, ok := x.(*ssa.Call)
+							if !ok || c.Call.StaticCallee() == nil || !strings.HasSuffix(c.Call.StaticCallee().Name(), "nlock") || len(c.Call.Args) == 0 {
+								return false
+							}
+							fa, ok := c.Call.Args[0].(*ssa.FieldAddr)
+							if !ok {
+								return false
+							}
+							sst, ok := derefStruct(fa.X.Type())
+							return ok && sst.Field(fa.Field) == lockFld
+						}
+						isHalf := func(x ssa.Instruction) bool {
+							for _, h := range halves {
+								if h == x {
+									return true
+								}
+							}
+							return false
+						}
+						var rel []ssa.Instruction
+						for _, b := range fn.Blocks {
+							for _, x := range b.Instrs {
+								x := x
+								if isRelease(x) && (&PathQ{Fn: fn, Target: func(y ssa.Instruction) bool { return y == x }}).FromAfter(halves) != nil {
+									rel = append(rel, x)
+								}
+							}
+						}
+						if len(rel) > 0 {
+							if wit := (&PathQ{Fn: fn, Target: isHalf}).FromAfter(rel); wit != nil {
+								bad = append(bad, "the wrapper lock is released at "+w.InstrPos(wit.Start)+" between the two halves of the move")
+							}
+						}
+					}
 					bad = uniq(bad)
 					r.Check(len(bad) == 0, wr.typ+"."+fn.Name()+v.tag+":container-under-"+wr.lock, "container is used only under the wrapper lock; the lock is released on every exit", strings.Join(bad, "; "))
 				}
